@@ -1,4 +1,7 @@
-import GoLevel.Proofs.CacheStep
+import GoLevel.Proofs.CacheStale
+import GoLevel.Proofs.CacheProgress
+import GoLevel.Proofs.CacheTableCount
+import GoLevel.Proofs.CacheTableDriver   -- the driver's `cache …` protocol runs exactly these two models
 /-! # C17 — the cache that holds open tables and blocks
 
 "Concurrent lookups of the same (namespace, key) obtain the same live value, whose constructor runs once per
@@ -15,7 +18,18 @@ finalisation properties are false without that hypothesis (a defect of the code:
 "I am the last one" before it synchronises with `Close`).  `lru_capacity` and the first part of
 `unique_live_value` hold for the unguarded system as well.
 
-Abstraction recorded in the model: `Node.callFinalizer` (unsynchronised in the code) is one atomic step. -/
+`Node.callFinalizer` is one atomic step: the repaired code ("make Node.callFinalizer safe against a concurrent second
+call") takes the value and the delFuncs out of the node under `n.mu`; `callFinalizer_race` below records what the
+unrepaired code did, `callFinalizer_repaired` that two overlapping calls now release the value once.
+
+**Quiescence** (`Quiescent s`): no thread has an instruction pending — every call that was started has returned.
+`finalise_exactly_once` is a statement about all reachable quiescent states, for every interleaving that leads
+there; it assumes nothing else about the scheduler (in particular no fairness: a state in which some call never
+finishes is simply not quiescent).
+
+The hash table (`mHead`/`mBucket`, lazily initialised buckets, grow/shrink) that `Model/Cache.lean` abstracts to a
+list of nodes is modelled sequentially in `Model/CacheTable.lean`; `table_refines_map` shows that it is a finite
+map keyed by (ns,key). -/
 namespace GoLevel.C17
 open GoLevel.CacheM
 
@@ -114,27 +128,86 @@ theorem finalise_once_after_release {g : Bool} {s : Sys} (hr : Reachable g s) :
         simp only [refsP]; rw [hperm.countP_eq]
       omega
 
-/-- The full "exactly once": additionally every constructed value is eventually finalised, i.e. in a
-quiescent state (no thread inside the cache, no caller handle) every value ever constructed is either in the
-history of finalisers or resident in a node kept by the LRU list.  Not proved in Lean (it needs one more
-invariant: a node whose counter is zero has a pending `mBucket.delete`); the Go check evaluates it on the
-implementation at every quiescent point and after `Close`. -/
-def finalise_exactly_once_full : Prop :=
-  ∀ {s : Sys}, Reachable true s → pending s = [] → s.sh.handles = [] →
-    ∀ v, v < s.sh.nextVal →
-      v ∈ s.log.filterMap finVal ∨ ∃ n ∈ s.sh.nodes, n.value = some v ∧ n.lru = .inList
+/-- **finalise_exactly_once.**  In every reachable *quiescent* state (no thread inside the cache: every call has
+returned), guarded or not:
 
-/-- What is proved of it: values are numbered without gaps and none is ever lost — every value constructed so
-far has been finalised or is still resident. -/
+(1) no value's `Release` ran twice, and every value that was constructed (`Ev.ctor _ v` in the history) is either
+finalised — exactly once, and then no node holds it any more — or not finalised and still the value of a node
+that is *retained*: the cache was not force-closed and a caller still owns a handle to the node, or the cache is
+open and the node is on the LRU list.  So a value whose handles have all been released and that has left the
+cache (evicted, deleted, or the cache closed — after `Close` nothing is on the LRU list) has been finalised
+exactly once; after `Close(true)` every value has.
+
+(2) in the guarded system (more generally: as long as no `callFinalizer` went through a stale pointer, `stale`)
+no delFunc ran twice; and, guarded or not, every delFunc handed to `Cache.Delete` so far (they are numbered in
+call order, `d < nextDel`) has run, or is still attached to a retained node, or was handed to a `Delete` that
+found the cache closed (`dropped`; the code then returns `false` and never calls it — contrary to the comment on
+`Delete`, reported).  So the delFuncs of a node that was deleted have all run exactly once.  Without the guard
+"at most once" is FALSE for delFuncs: `close_race_delfunc_twice` (reproduced on the implementation).
+
+(3) after `Close` nothing is left on the LRU list. -/
+theorem finalise_exactly_once {g : Bool} {s : Sys} (hr : Reachable g s) (hq : Quiescent s) :
+    ((s.log.filterMap finVal).Nodup ∧
+      ∀ id v, Ev.ctor id v ∈ s.log →
+        (v ∈ s.log.filterMap finVal ∧ ∀ n ∈ s.sh.nodes, n.value ≠ some v) ∨
+        (v ∉ s.log.filterMap finVal ∧ ∃ n ∈ s.sh.nodes, n.value = some v ∧ Retained s n)) ∧
+    (((g = true ∨ s.sh.stale = false) → (s.log.filterMap delId).Nodup) ∧
+      ∀ d, d < s.sh.nextDel →
+        d ∈ s.log.filterMap delId ∨ (∃ n ∈ s.sh.nodes, d ∈ n.delFuncs ∧ Retained s n) ∨ d ∈ s.sh.dropped) ∧
+    (s.sh.closed = true → s.sh.lru.recent = []) := by
+  have hlog := logOK_reachable hr
+  have hQ := (invS_reachable hr).core
+  have hv := List.nodup_append.mp hlog.vals.1
+  have hst : (g = true ∨ s.sh.stale = false) → s.sh.stale = false := by
+    rintro (rfl | h)
+    · exact guarded_not_stale hr
+    · exact h
+  refine ⟨⟨hv.1, fun id v hc => ?_⟩,
+    ⟨fun hg => (List.nodup_append.mp (List.nodup_append.mp (hlog.dels (hst hg)).1).1).1, fun d hd => ?_⟩,
+    recent_nil_of_closed_quiescent hr hq⟩
+  · have hlt := ctor_lt_nextVal hr hc
+    rcases List.mem_append.mp (hQ.va v hlt) with hf | hn
+    · exact Or.inl ⟨hf, fun n hn hval => hv.2.2 v hf v (List.mem_filterMap.mpr ⟨n, hn, hval⟩) rfl⟩
+    · obtain ⟨n, hn, hval⟩ := List.mem_filterMap.mp hn
+      refine Or.inr ⟨fun hf => hv.2.2 v hf v (List.mem_filterMap.mpr ⟨n, hn, hval⟩) rfl, n, hn, hval, ?_⟩
+      exact retained_of_quiescent hr hq hn (fun h => by rw [h.1] at hval; cases hval)
+  · rcases hQ.da d hd with hD | hdrop
+    · unfold Quiescent at hq
+      simp only [D, hq, List.flatMap_nil, List.append_nil, List.mem_append, List.mem_flatMap] at hD
+      rcases hD with hl | ⟨n, hn, hdn⟩
+      · exact Or.inl hl
+      · refine Or.inr (Or.inl ⟨n, hn, hdn, ?_⟩)
+        exact retained_of_quiescent hr (by unfold Quiescent; exact hq) hn
+          (fun h => by rw [h.2] at hdn; cases hdn)
+    · exact Or.inr (Or.inr hdrop)
+
+/-- **no_deadlock** — quiescence is not reached by getting stuck: in every reachable state that is not quiescent
+some thread can take a step (`Close` waits for the readers inside and, guarded, for the threads in the zero branch
+of `unRefExternal`; those can always move).  No fairness is assumed anywhere: `finalise_exactly_once` speaks about
+whatever quiescent states a schedule reaches. -/
+theorem no_deadlock {g : Bool} {s : Sys} (hr : Reachable g s) (hnq : ¬ Quiescent s) :
+    ∃ t s', sysStep g s (.step t) = some s' :=
+  progress hr hnq
+
+/-- After a forced `Close`, once quiescent, every constructed value has been finalised (exactly once). -/
+theorem forced_close_finalises_all {g : Bool} {s : Sys} (hr : Reachable g s) (hq : Quiescent s)
+    (hf : s.sh.forced = true) : ∀ id v, Ev.ctor id v ∈ s.log → v ∈ s.log.filterMap finVal := by
+  intro id v hc
+  rcases (finalise_exactly_once hr hq).1.2 id v hc with h | ⟨_, n, _, _, hret⟩
+  · exact h.1
+  · rw [hret.1] at hf; cases hf
+
+/-- The bound that was all that was known before: every finalised or resident value is below `nextVal`. -/
 theorem finalise_exactly_once_partial {g : Bool} {s : Sys} (hr : Reachable g s) :
     ∀ v ∈ s.log.filterMap finVal ++ s.sh.nodes.filterMap (·.value), v < s.sh.nextVal :=
   (logOK_reachable hr).vals.2
 
-/-- **del_after_last_handle.**  (1) No delFunc runs twice; (2) (guarded or before `Close`, not force-closed) a
+/-- **del_after_last_handle.**  (1) In the guarded system (or as long as no `callFinalizer` went through a stale
+pointer) no delFunc runs twice — false without the guard, see `close_race_delfunc_twice`; (2) (guarded or before `Close`, not force-closed) a
 delFunc attached to a node only runs in a state with no outstanding handle to that node; (3) when `Delete`
 finds no node, its next two actions are the delFunc itself and the return. -/
 theorem del_after_last_handle {g : Bool} {s : Sys} (hr : Reachable g s) :
-    (s.log.filterMap delId).Nodup ∧
+    ((g = true ∨ s.sh.stale = false) → (s.log.filterMap delId).Nodup) ∧
     (∀ a s', sysStep g s a = some s' → s.sh.forced = false → (g = true ∨ s.sh.closed = false) →
       ∀ d id f, Ev.delf d (some id) f ∈ emitted s a → outstanding s id = 0) ∧
     (∀ (sh : Shared) k d, sh.closed = false → findKey sh.nodes k = none →
@@ -142,7 +215,11 @@ theorem del_after_last_handle {g : Bool} {s : Sys} (hr : Reachable g s) :
       exec sh (.runDel d) = some (sh, [], [.delf d none false])) := by
   have hinv := inv_reachable hr
   have hlog := logOK_reachable hr
-  refine ⟨(List.nodup_append.mp (List.nodup_append.mp hlog.dels.1).1).1, ?_, ?_⟩
+  have hst : (g = true ∨ s.sh.stale = false) → s.sh.stale = false := by
+    rintro (rfl | h)
+    · exact guarded_not_stale hr
+    · exact h
+  refine ⟨fun hg => (List.nodup_append.mp (List.nodup_append.mp (hlog.dels (hst hg)).1).1).1, ?_, ?_⟩
   · intro a s' hs hf hg d id f hev
     rcases sysStep_cases hs with ⟨t, c, rfl, _, hem, rfl⟩ | ⟨t, i, rest, sh', push, evs, rfl, ht, he, hem, rfl⟩
     · rw [hem] at hev; cases hev
@@ -230,8 +307,8 @@ theorem close_race_finalises_under_handle :
 example : runSched true (Sys.init 0 3) raceSched = none := by decide
 
 /-- Thread 0 as before; thread 1 gets the key again and releases it, which removes the node from its bucket;
-thread 2 closes; thread 0 then calls `callFinalizer` on the removed node (in the code: its delFuncs, which
-`mBucket.delete` already ran and did not clear, would run a second time — the model flags `bug`). -/
+thread 2 closes; thread 0 then calls `callFinalizer` on the removed node (its delFuncs, which `mBucket.delete`
+already ran and did not clear, run a second time: `close_race_delfunc_twice`; the model also flags `bug`). -/
 def staleSched : List Act :=
   [ .call 0 (.get (0, 1) (.val 1)), .step 0, .step 0, .step 0, .step 0, .step 0, .step 0,
     .call 0 (.release 0), .step 0, .step 0,
@@ -250,13 +327,52 @@ theorem close_race_stale_finaliser :
     rw [hs] at h
     exact ⟨s, reachable_of_runSched (Reachable.init 0 3) hs, by simpa using h⟩
 
-/-! ## `callFinalizer` is not atomic in the code
+/-- As `staleSched`, with a delFunc: thread 0 `Get`s key (0,1), `Delete`s it with delFunc 0 (deferred: the handle
+is outstanding) and releases the handle — the counter drops to zero and the thread stalls in `unRefExternal`
+before `n.r.mu.RLock()`.  Thread 1 `Get`s the key (the node is still in its bucket) and releases it:
+`mBucket.delete` removes the node and runs delFunc 0 (it does not clear `n.delFuncs`).  Thread 2 runs
+`Close(false)`.  Thread 0 resumes, sees `closed`, calls `callFinalizer` on the removed node: delFunc 0 runs again.
+Every call returns: the final state is quiescent. -/
+def delTwiceSched : List Act :=
+  [ .call 0 (.get (0, 1) (.val 1)) ] ++ List.replicate 6 (.step 0) ++
+  [ .call 0 (.delete (0, 1) true) ] ++ List.replicate 7 (.step 0) ++
+  [ .call 0 (.release 0), .step 0, .step 0 ] ++
+  [ .call 1 (.get (0, 1) .none) ] ++ List.replicate 6 (.step 1) ++
+  [ .call 1 (.release 0) ] ++ List.replicate 5 (.step 1) ++
+  [ .call 2 (.close false), .step 2 ] ++
+  [ .step 0, .step 0, .step 0 ]
 
-The model executes `Node.callFinalizer` as one step.  The code runs it without a lock from two places that can
-overlap: `Cache.Close(true)` (for every node) and `Node.unRefExternal` (when the counter reached zero and the
-cache is closed).  The micro-model below splits it into its two memory accesses; two overlapping executions
-release the value twice.  The concurrent stress of the Go check reproduces exactly this on the implementation
-(signature `cache.Close(force):concurrent-release:finalised-twice`). -/
+/-- **close_race_delfunc_twice** — the negation of "exactly once" for delFuncs in the UNGUARDED system: a reachable
+quiescent state whose history contains delFunc 0 twice (and the value's `Release` once).  This is a defect of
+the code (`unRefExternal` decides "I am the last one" before it synchronises with `Close`, and `mBucket.delete`
+leaves `n.delFuncs` in place); the interleaving was replayed on the implementation by a stress of exactly these
+three threads: 75 of 1.85 million trials ran the delFunc twice (`checks/c17conc.go:c17StaleFinalizer`). -/
+theorem close_race_delfunc_twice :
+    ∃ s, Reachable false s ∧ Quiescent s ∧ ¬ (s.log.filterMap delId).Nodup ∧
+      s.log.filterMap delId = [0, 0] ∧ s.log.filterMap finVal = [0] := by
+  have h : (runSched false (Sys.init 0 3) delTwiceSched).map
+      (fun s => (pending s, s.log.filterMap delId, s.log.filterMap finVal)) = some ([], [0, 0], [0]) := by decide
+  cases hs : runSched false (Sys.init 0 3) delTwiceSched with
+  | none => rw [hs] at h; cases h
+  | some s =>
+    rw [hs] at h
+    simp only [Option.map_some, Option.some.injEq, Prod.mk.injEq] at h
+    refine ⟨s, reachable_of_runSched (Reachable.init 0 3) hs, h.1, ?_, h.2.1, h.2.2⟩
+    rw [h.2.1]; decide
+
+/-- The guarded system does not allow that schedule either. -/
+example : runSched true (Sys.init 0 3) delTwiceSched = none := by decide
+
+/-! ## `callFinalizer`: before and after the repair
+
+The model executes `Node.callFinalizer` as one step.  It is called from two places that can overlap:
+`Cache.Close(true)` (for every node) and `Node.unRefExternal` (when the counter reached zero and the cache is
+closed).  BEFORE the repair ("make Node.callFinalizer safe against a concurrent second call") it ran without a
+lock; the micro-model `finStep` splits that version into its two memory accesses: two overlapping executions
+release the value twice (`callFinalizer_race`; the concurrent stress of the Go check reproduced exactly this on
+the implementation, signature `cache.Close(force):concurrent-release:finalised-twice`).  The repaired code takes
+value and delFuncs out of the node under `n.mu` (`finStepFixed`): whatever the interleaving of two calls, the
+value is released once (`callFinalizer_repaired`) — which is what justifies the atomic `fin` step. -/
 
 /-- One thread inside `callFinalizer`: about to read `n.value`, or holding what it read. -/
 inductive FinPc
@@ -277,6 +393,35 @@ theorem callFinalizer_race :
     let s2 := finStep s1.1 s1.2.1 s0.2.2           -- A releases and clears
     let s3 := finStep s2.1 s2.2.1 s1.2.2           -- B releases
     s3.2.1 = [0, 0] := by decide
+
+/-- The repaired `callFinalizer`: `n.mu.Lock(); value := n.value; n.value = nil; n.mu.Unlock()` is one step
+(`take`), the `Release()` of what was taken the next. -/
+inductive FinPcFixed
+  | take | release (v : Option Nat) | done
+  deriving DecidableEq, Repr
+
+def finStepFixed (value : Option Nat) (released : List Nat) : FinPcFixed → Option Nat × List Nat × FinPcFixed
+  | .take => (none, released, .release value)
+  | .release (some v) => (value, released ++ [v], .done)
+  | .release none => (value, released, .done)
+  | .done => (value, released, .done)
+
+/-- Two threads inside the repaired `callFinalizer`, scheduled by `sched` (`false` = thread A, `true` = B). -/
+def finRun : Option Nat → List Nat → FinPcFixed → FinPcFixed → List Bool → List Nat
+  | _, released, _, _, [] => released
+  | value, released, a, b, false :: rest =>
+    let r := finStepFixed value released a
+    finRun r.1 r.2.1 r.2.2 b rest
+  | value, released, a, b, true :: rest =>
+    let r := finStepFixed value released b
+    finRun r.1 r.2.1 a r.2.2 rest
+
+/-- **callFinalizer_repaired**: every interleaving of two complete calls (each thread takes two steps) releases
+value 0 exactly once. -/
+theorem callFinalizer_repaired :
+    ∀ sched ∈ [[false, false, true, true], [false, true, false, true], [false, true, true, false],
+               [true, false, false, true], [true, false, true, false], [true, true, false, false]],
+      finRun (some 0) [] .take .take sched = [0] := by decide
 
 /-! ## Non-vacuity: concrete runs that exercise the statements -/
 
@@ -319,12 +464,141 @@ example :
     some ⟨[2, 1], [0, 1, 2], [0], [0], [(2, 2, some 2, LruSt.inList), (1, 2, some 1, LruSt.inList)], 2, [2, 1]⟩ := by
   decide
 
+/-- `finalise_exactly_once` on a concrete interleaved-by-call run of two threads (capacity 1): node 0 is deleted
+with delFunc 0 while thread 0 holds it (deferred to the release), `Delete` of an absent key runs delFunc 1 at
+once, `Close(false)` evicts node 1, `Delete` on the closed cache drops delFunc 2, the last release finalises
+value 1.  The final state is quiescent; values 0 and 1 are finalised once each, delFuncs 0 and 1 ran once, 2 was
+dropped; nothing is retained. -/
+def quiesceSched : List Act :=
+  [ .call 0 (.get (0, 1) (.val 1)) ] ++ List.replicate 6 (.step 0) ++
+  [ .call 1 (.get (0, 2) (.val 1)) ] ++ List.replicate 7 (.step 1) ++
+  [ .call 0 (.delete (0, 1) true) ] ++ List.replicate 7 (.step 0) ++
+  [ .call 1 (.delete (0, 9) true) ] ++ List.replicate 5 (.step 1) ++
+  [ .call 0 (.release 0) ] ++ List.replicate 5 (.step 0) ++
+  [ .call 1 (.close false) ] ++ List.replicate 3 (.step 1) ++
+  [ .call 0 (.delete (0, 2) true) ] ++ List.replicate 1 (.step 0) ++
+  [ .call 1 (.release 1) ] ++ List.replicate 5 (.step 1)
+
+structure QView where
+  pending : List Instr
+  ctors : List Nat
+  fins : List Nat
+  dels : List Nat
+  dropped : List Nat
+  nextDel : Nat
+  handles : List Nat
+  recent : List Nat
+  closed : Bool
+  values : List (Nat × Option Nat)
+  deriving DecidableEq
+
+def qview (s : Sys) : QView :=
+  { pending := pending s, ctors := (view s).ctors, fins := (view s).fins, dels := (view s).dels,
+    dropped := s.sh.dropped, nextDel := s.sh.nextDel, handles := s.sh.handles, recent := s.sh.lru.recent,
+    closed := s.sh.closed, values := s.sh.nodes.map fun n => (n.id, n.value) }
+
+example :
+    (runSched true (Sys.init 1 2) quiesceSched).map qview =
+    some ⟨[], [0, 1], [0, 1], [1, 0], [2], 3, [], [], true, [(1, none)]⟩ := by decide
+
+/-- … and one call earlier (before the last `Release`): value 1 is not finalised and its node is retained by the
+caller's handle 1. -/
+example :
+    (runSched true (Sys.init 1 2) (quiesceSched.take 41)).map qview =
+    some ⟨[], [0, 1], [0], [1, 0], [2], 3, [1], [], true, [(1, some 1)]⟩ := by decide
+
+/-! ## The hash table (`Model/CacheTable.lean`) is a finite map -/
+
+open GoLevel.CacheT in
+/-- **table_refines_map.**  For every hash function and every sequence of table operations — the table accesses
+of `Cache.Get` with / without setFunc, `Cache.Delete`, `Cache.Evict` (`TOp.get`), `Cache.delete(n)` with either
+outcome of the `n.ref == 0` test (`TOp.delete`), and the steps of the background `initBuckets` goroutines
+scheduled anywhere between them (`TOp.bgInit`, `TOp.bgDone`) — starting from `NewCache`:
+(1) every operation returns what the same operation returns on a finite map keyed by (ns,key) (`specRun`): a
+lookup finds exactly the node that was created for that key and not deleted since, creation happens only for an
+absent key, deletion only of the present node and only when its counter is zero;
+(2) the code never panics and the `for` loops never have to retry (`bug = false`);
+(3) the nodes in the table are exactly the nodes of the map — each exactly once (`contents` is a permutation of
+the map, which has no duplicates);
+(4) `Nodes()` is the size of the map = the number of nodes physically in the buckets. -/
+theorem table_refines_map (hashfn : Nat → Nat → Nat) (ops : List TOp) :
+    (run hashfn Table.new ops).2 = (specRun hashfn Spec.new ops).2 ∧
+    (run hashfn Table.new ops).1.bug = false ∧
+    (∀ x, x ∈ (specRun hashfn Spec.new ops).1.m ↔ Mem (run hashfn Table.new ops).1 x) ∧
+    (specRun hashfn Spec.new ops).1.m.Nodup ∧
+    (contents (run hashfn Table.new ops).1.heads).Perm (specRun hashfn Spec.new ops).1.m ∧
+    (run hashfn Table.new ops).1.Nodes = (specRun hashfn Spec.new ops).1.m.length ∧
+    (run hashfn Table.new ops).1.Nodes = (contents (run hashfn Table.new ops).1.heads).length := by
+  obtain ⟨h1, h2⟩ := run_refines ops (refines_new hashfn)
+  have h3 := contents_perm h2
+  exact ⟨h1, h2.wf.bug, h2.mem, h2.nodup, h3.1, h2.nodes, h3.2⟩
+
+open GoLevel.CacheT in
+/-- **table_buckets.**  In every state the table reaches: the number of buckets is a power of two; every bucket
+of the current head — as stored if initialised, as `initBucket` would build it if not — is strictly sorted by
+(ns,key) (the order `mNodes.search` relies on); a node sits in the bucket its hash selects and in no other, its
+hash is the hash of its key, and no bucket holds a node twice; the current head has no frozen bucket. -/
+theorem table_buckets (hashfn : Nat → Nat → Nat) (ops : List TOp) :
+    ∃ h ps, (run hashfn Table.new ops).1.heads = h :: ps ∧
+      (∃ k, h.buckets.length = 2 ^ k ∧ h.mask = 2 ^ k - 1) ∧
+      (∀ i, i < h.buckets.length →
+        Sorted (vnodes (h :: ps) i) ∧ (vnodes (h :: ps) i).Nodup ∧
+        ((h.bucket i).state ≠ .uninit → vnodes (h :: ps) i = (h.bucket i).nodes) ∧
+        (h.bucket i).state ≠ .frozen ∧
+        ∀ x ∈ vnodes (h :: ps) i, x.hash = hashfn x.ns x.key ∧ x.hash &&& h.mask = i) := by
+  have hr := (run_refines ops (refines_new hashfn)).2
+  obtain ⟨h, ps, hh⟩ := twf_heads hr.wf
+  have hw := hr.wf.chain
+  rw [hh] at hw
+  refine ⟨h, ps, hh, hw.headOK, fun i hi => ?_⟩
+  have hb := vnodes_ok hw h ps rfl i hi
+  refine ⟨hb.1, sorted_nodup hb.1, fun hst => vnodes_init hi hst, hr.wf.nf h ps hh i, fun x hx => ?_⟩
+  have := hb.2 x hx
+  exact ⟨this.1, by rw [land_mask hw.headOK]; exact this.2⟩
+
+namespace TableExample
+open GoLevel.CacheT
+
+/-- A hash that sends every key of namespace 0 into bucket 3 of a 16-bucket table (and spreads them over buckets
+3 and 19 of a 32-bucket table): the table grows through the overflow counter. -/
+def hash (ns key : Nat) : Nat := ns * 1000003 + key * 16 + 3
+
+/-- 160 insertions (the table grows from 16 to 32 buckets at the 160th: 32 + 128 nodes in one bucket), two steps
+of the background goroutine, a lookup, the goroutine's final store (refused: not every bucket is initialised),
+then 149 deletions (the table shrinks back to 16 buckets when the 145th leaves 15 nodes; the buckets touched
+afterwards are merged from two frozen buckets each), and two lookups. -/
+def ops : List TOp :=
+  (List.range 160).map (fun k => TOp.get 0 k false) ++
+  [.bgInit 0 3, .bgInit 0 19, .get 0 5 true, .bgDone 0] ++
+  (List.range 149).map (fun k => TOp.delete 0 k true) ++ [.get 0 155 true, .get 0 3 true]
+
+def summary (t : Table) : Nat × Int × Nat × Nat × Bool × Nat :=
+  (t.Buckets, t.Nodes, t.statGrow, t.statShrink, t.bug, t.heads.length)
+
+/-- Non-vacuity of `table_refines_map` / `table_buckets`: a run with a grow, a shrink and lazily merged buckets. -/
+example :
+    summary (run hash Table.new ops).1 = (16, 11, 1, 1, false, 3) ∧
+    (run hash Table.new ops).2.drop 313 =
+      [.get (.found { ns := 0, key := 155, hash := 2483, id := 155 }), .get .absent] := by decide +kernel
+
+/-- A small run, checked against the map by plain evaluation: same answers, same size. -/
+example :
+    (run hash Table.new [.get 0 1 false, .get 0 1 false, .get 0 2 true, .delete 0 1 false, .delete 0 1 true,
+      .get 0 1 true]).2 =
+    (specRun hash Spec.new [.get 0 1 false, .get 0 1 false, .get 0 2 true, .delete 0 1 false, .delete 0 1 true,
+      .get 0 1 true]).2 := by decide
+
+end TableExample
+
 /-- The property theorems of C17 (for the audit). -/
 def theorems : List String :=
   ["GoLevel.C17.unique_live_value", "GoLevel.C17.same_key_same_value",
-   "GoLevel.C17.finalise_once_after_release", "GoLevel.C17.finalise_exactly_once_partial",
+   "GoLevel.C17.finalise_once_after_release", "GoLevel.C17.finalise_exactly_once",
+   "GoLevel.C17.forced_close_finalises_all", "GoLevel.C17.finalise_exactly_once_partial",
    "GoLevel.C17.del_after_last_handle", "GoLevel.C17.lru_capacity", "GoLevel.C17.ref_is_count",
    "GoLevel.C17.close_race_finalises_under_handle", "GoLevel.C17.close_race_stale_finaliser",
-   "GoLevel.C17.callFinalizer_race"]
+   "GoLevel.C17.close_race_delfunc_twice", "GoLevel.C17.no_deadlock",
+   "GoLevel.C17.callFinalizer_race", "GoLevel.C17.callFinalizer_repaired",
+   "GoLevel.C17.table_refines_map", "GoLevel.C17.table_buckets"]
 
 end GoLevel.C17
